@@ -45,3 +45,18 @@ def run(prog, R):
     want = {ITEM: ["oq3_parser::grammar::items::source_file_contents"], STMT: ["oq3_parser::grammar::expressions::expr_block_statements", "oq3_parser::grammar::items::block_or_statement"]}
     for f in (ITEM, STMT):
         R.ob("C16.2-statement-loops", short(f), callers[f] == want[f], prog.body(f).at, f"callers of {short(f)}: {[short(x) for x in callers[f]]} (expected {[short(x) for x in want[f]]})")
+    # ---- C16.3 a block statement ends at its closing brace: `{ } k ...` parsed in statement position leaves k as the
+    # next token, for every token kind k.  (If the expression machinery went on after a statement-level block - a
+    # postfix `(`/`[`, a binary operator - the block and the following statement would merge into one statement and
+    # the statement list of a sequence would differ from the concatenation of its parts.)
+    nb = 0
+    for (fn, k), outs in sorted(G.block_probe.items()):
+        if k in ("SEMICOLON", "EOF"):
+            continue        # `{ };` : the optional terminating semicolon belongs to the block statement
+        nb += 1
+        bit = 1 << G.kdisc[k]
+        bad = [(grammar_run.names(G, w, 4), c, e) for (w, c, e) in outs if w != bit]
+        R.ob("C16.3-block-statement-ends-at-brace", k, not bad and bool(outs), prog.body(fn).at,
+             "next token after the block statement is " + k if not bad else
+             f"`{{ }} {k} ..` in statement position: some outcome leaves {bad[:2]} as the next token instead of {k}: the token after a statement-level block is consumed as part of the same statement (statements merge)")
+    R.floor("block statement probes", nb, 80)
